@@ -7,7 +7,8 @@ from .dslgen import S, T
 TYPE_POOL = ["user", "group", "doc", "folder", "org", "team", "project", "repo", "wiki", "page", "doc_x", "user2"]
 REL_POOL = ["member", "viewer", "editor", "owner", "parent", "admin", "viewer_x", "e", "fin", "view", "can_view"]
 COND_POOL = ["cond", "cond_x", "in_window", "is_valid", "c1", "Zone_check", "In_window"]
-MODULES = ["core", "wiki", "issues", "m1", "m2"]
+# the grammar lets a module be named by some of its own words too (identifier: IDENTIFIER | MODEL | SCHEMA | TYPE | RELATION | MODULE | EXTEND)
+MODULES = ["core", "wiki", "issues", "m1", "m2", "type", "module", "relation", "extend"]
 
 
 def simple_expr(rng, rels, types, conds):
